@@ -326,7 +326,7 @@ func main() {
 	res.Rule = "configurations generated from (seed,index): iobuf in {1,2,3,5,16,64,100,4096,65536,2000000}, connbuf in {1,8,1000,30000}, flush in {1,10,100}ms, pickle 1/4, line lengths 5B..4x iobuf (cap 9000) biased to the buffer size, hand-off pattern burst/trickle/mixed; non-trivial = at least half of the handed lines were received and checked; distinct = (iobuf,connbuf,flush,pickle,pattern)"
 	res.Assume("the loopback endpoint reads as fast as it can (healthy); a run in which the connection was re-established is set aside as inconclusive")
 	res.Assume("pickle frames are decoded with the og-rek dependency here; CPython decoding is C16")
-	n := mon.N(48, 1400)
+	n := mon.N(48, 800)
 	var wg sync.WaitGroup
 	sem := make(chan struct{}, 2)
 	ran := 0
